@@ -30,6 +30,9 @@ Mat4T == {<<"Mat4", s, d>> : s \in Bases, d \in Bases}
 Mat3T == {<<"Mat3", s, d>> : s \in {"Model", "World"}, d \in {"Model", "World"}}
 MatPT == {<<"MatP", s>> : s \in Bases}
 Scal == {<<"Angle">>, <<"F32">>}
+\* a square array of the given size tagged as a linear map of a space of the given dimension (Model -> World)
+MatRawT == {<<"MatRaw", n, d>> : n \in {"2", "3", "4"}, d \in {"2", "3"}}
+Num(x) == CASE x = "2" -> 2 [] x = "3" -> 3 [] OTHER -> 4
 
 Kind(t) == t[1]
 P3 == {t \in PtT : t[2] = "3"}
@@ -59,10 +62,13 @@ Programs ==
   \cup {<<op, <<m>>>> : op \in {"Inverse", "Transpose", "Determinant"}, m \in Mat4T \cup MatPT}
   \cup {<<"Apply", <<m, p>>>> : m \in MatPT, p \in {x \in PtT \cup VecT : x[2] = "3"}}
   \cup {<<"ApplyPt", <<m, p>>>> : m \in MatPT, p \in {x \in PtT : x[2] = "3"}}
+  \* transposing an array too small for the dimension of the map it is tagged with
+  \* (rejected when the function is instantiated: seen by a build, not by a type check)
+  \cup {<<"TransposeRaw", <<m>>>> : m \in MatRawT}
   \* angles
   \cup {<<op, <<a>>>> : op \in {"RotateX", "Sin", "PolarAz"}, a \in Scal}
-  \cup {<<"Add", <<a, b>>>> : a \in Scal, b \in Scal}
-  \cup {<<"MulScalar", <<<<"Angle">>, b>>>> : b \in Scal}
+  \cup {<<op, <<a, b>>>> : op \in {"Add", "Sub", "Rem"}, a \in Scal, b \in Scal}
+  \cup {<<op, <<<<"Angle">>, b>>>> : op \in {"MulScalar", "DivScalar"}, b \in Scal}
   \* two-step programs: a difference taken in one space, added in another
   \cup {<<"SubThenAdd", <<a, b, c>>>> : a \in ColT, b \in ColT, c \in ColT}
   \cup {<<"SubThenAdd", <<a, b, c>>>> : a \in P3, b \in P3, c \in P3}
@@ -106,9 +112,10 @@ WellTyped(pr) ==
     [] op = "Compose" /\ Kind(a) = "Mat4" /\ Kind(b) = "MatP" -> FALSE
     [] op = "Then" /\ Kind(a) = "Mat4" /\ Kind(b) = "MatP" -> a[3] = b[2]
     [] op \in {"Inverse", "Transpose", "Determinant"} -> Kind(a) = "Mat4"
+    [] op = "TransposeRaw" -> Num(a[2]) >= Num(a[3])
     [] op \in {"RotateX", "Sin", "PolarAz"} -> a = <<"Angle">>
-    [] op = "Add" /\ a \in Scal -> a = b
-    [] op = "MulScalar" -> b = <<"F32">>
+    [] op \in {"Add", "Sub", "Rem"} /\ a \in Scal -> a = b          \* angle with angle, number with number
+    [] op \in {"MulScalar", "DivScalar"} -> b = <<"F32">>           \* an angle is scaled by a bare number only
     [] op = "SubThenAdd" -> a = b /\ pr[2][3] = a                          \* the difference keeps its space
     [] op = "ApplyPtRes" -> Kind(b) = "Pt" /\ b[3] = a[2] /\ pr[2][3] = <<"Pt", b[2], a[3]>>     \* lands in the destination space
     [] op = "ApplyRes" -> Kind(b) = "Vec" /\ b[3] = a[2] /\ pr[2][3] = <<"Vec", b[2], a[3]>>
@@ -130,6 +137,7 @@ Class(pr) ==
   ELSE IF op = "ComposeRes" THEN "compose-mismatch"
   ELSE IF op \in {"Compose", "Then"} THEN "compose-mismatch"
   ELSE IF op \in {"Inverse", "Transpose", "Determinant"} THEN "projective-as-affine"
+  ELSE IF op = "TransposeRaw" THEN "mixed-dimension-or-repr"
   ELSE IF op \in {"RotateX", "Sin", "PolarAz"} \/ a \in Scal THEN "number-as-angle"
   ELSE IF op \in ConvOps THEN "wrong-colour-space"
   ELSE "shader-output"
